@@ -140,6 +140,9 @@ impl<'a> Gen<'a> {
                 let op = *self.rng.pick(&ops);
                 let r = self.expr(d - 1);
                 let (a, b) = (self.sp(), self.sp());
+                // `x :: number < y` is not Luau (`number<` opens type arguments; full_moon accepts it silently and drops tokens:
+                // the listed silent-recovery finding of C07): a type assertion in front of `<` is parenthesised
+                let l = if op.starts_with('<') && l.trim_end().ends_with(":: number") { format!("({})", l) } else { l };
                 format!("{}{}{}{}{}", l, a, op, b, r)
             }
             4 => { let e = self.expr(d - 1); let u = *self.rng.pick(&["-", "not ", "#"]); if u == "-" && e.starts_with('-') { format!("- {}", e) } else { format!("{}{}", u, e) } }
